@@ -265,6 +265,11 @@ func (this *contractExecutor) decodeContractData(txData string) (*ContractRawDat
 		this.logger.Errorf("Contract TransferValue convert error:%s", err.Error())
 		return nil, fmt.Sprintf("Contract data TransferValue eror, data: %s", data.TransferValue)
 	}
+	// a negative amount would pass vm.CanTransfer and move the value the other way round
+	if transferValue.Sign() < 0 {
+		this.logger.Errorf("Contract TransferValue negative:%s", data.TransferValue)
+		return nil, fmt.Sprintf("Contract data TransferValue eror, data: %s", data.TransferValue)
+	}
 
 	var input []byte
 	if common.IsProposal005() && (data.AbiData == "" || data.AbiData == "0x0") {
